@@ -4,7 +4,7 @@
 cd /verif
 fail=0
 for d in seeded/*/; do
-  k=$(basename $d); id=${k%%-*}
+  k=$(basename $d); id=$(python3 -c "import json,sys; print(json.load(open('$d/meta.json'))['check']['id'])" 2>/dev/null || echo ${k%%-*})
   r=$(./tools/runmutant.sh $d/patch.diff $id 2>&1 | tail -1)
   case "$r" in *"exit=1") echo "ok   $k detected";; *) echo "MISS $k ($r)"; fail=1;; esac
 done
